@@ -7,6 +7,7 @@ from dpapi_ng import _blob
 from vlib.api import all_of, harness, truth
 
 from . import e2e, refs
+from .world import ScalarOutOfRange  # noqa
 from .world import lookup, same_syms, seq_eq
 
 META = dict(assumptions=[
@@ -36,7 +37,7 @@ def _roles(c, w, blob_bytes, draws):
     return conds
 
 
-@harness(P, params=lambda tier: [dict(ncalls=3, hash_name="SHA512", same=True), dict(ncalls=2, hash_name="SHA1", same=False)] +
+@harness(P, per_job=True, params=lambda tier: [dict(ncalls=3, hash_name="SHA512", same=True), dict(ncalls=2, hash_name="SHA1", same=False)] +
          ([dict(ncalls=4, hash_name=h, same=s) for h in ("SHA256", "SHA384") for s in (True, False)] if tier == "thorough" else []), max_steps=3000000,
          bounds="2..3 (quick) / 4 (thorough) consecutive protect calls on one cache with identical or different arguments, nonce mode, one unprotect interleaved after the first call; "
          "clock fixed inside one interval", outside="longer call sequences (each call is the same code from the same cache state class); public-key mode (see C03)",
@@ -65,9 +66,9 @@ def fresh_draws(c, ncalls, hash_name, same):
     return len(w.draws)
 
 
-@harness(P, params=lambda tier: [dict(alg=a, hash_name=h) for a, h in ([("DH", "SHA256"), ("ECDH_P256", "SHA512")] if tier == "quick" else
+@harness(P, per_job=True, params=lambda tier: [dict(alg=a, hash_name=h) for a, h in ([("DH", "SHA256"), ("ECDH_P256", "SHA512")] if tier == "quick" else
                                                                         [("DH", "SHA1"), ("DH", "SHA256"), ("ECDH_P256", "SHA512"), ("ECDH_P384", "SHA384")])],
-         raises=(ValueError,), max_steps=3000000,
+         raises=(ScalarOutOfRange,), max_steps=3000000,
          bounds="public-key mode (DH over a 32-bit group, ECDH P256/P384): 3 consecutive protect calls with identical arguments for a caller who only receives the group public key "
          "(every call asks the DC stub, which returns the same public-key envelope); each blob's ephemeral public key must be the group element of a private key drawn from the RNG "
          "during that very call (ceil(private_key_length/8) bytes), CEK and GCM nonce likewise", outside="longer sequences; P521",
